@@ -1,6 +1,8 @@
 (** Entry points for C19 (interrupted signature-file writes); wire format as in Entry/E12.v.
       op     = (0 key aval) | (1 key dset) | (2 key ity n) | (3 key a b ints)
-      policy = 0 AtClose | 1 Eager *)
+      policy = 0 AtClose | 1 Eager | 2 + k FlushedAt k
+    ops 1-6 speak about [dump_ops] (the repaired order, marker last); 7, 8 give the order as found [dump_ops_v0];
+    9 / 10 = what both readers answer on the file of a writer that RAISED after n calls of [dump_ops] / [dump_ops_v0] *)
 From Coq Require Import ZArith List Bool.
 From GV Require Import Base.Val Model.Store Entry.E12.
 Import ListNotations.
@@ -22,7 +24,14 @@ Definition vop_short (o : op) : val :=
   | OCreateZero k t n => VL [VI 2; VI k; VI (ity_code t); VI n]
   | OWrite k a b data => VL [VI 3; VI k; VI a; VI b; VI (zlen data)]
   end.
-Definition to_policy (v : val) : policy := if to_Z v =? 0 then AtClose else Eager.
+Definition to_policy (v : val) : policy :=
+  let z := to_Z v in if z =? 0 then AtClose else if z =? 1 then Eager else FlushedAt (Z.to_nat (z - 2)).
+
+(** (load_file, load_file_cur, decoded signatures) on what a writer that raised after the calls [done] leaves *)
+Definition raised_answers (done : list op) : val :=
+  VL [vsres vloaded (sbind (raised_disk done) load_file);
+      vsres vloaded (sbind (raised_disk done) load_file_cur);
+      vsres vsigs (sbind (sbind (raised_disk done) load_file) decode)].
 
 Definition dispatch (op : Z) (a : val) : val :=
   match op with
@@ -55,6 +64,22 @@ Definition dispatch (op : Z) (a : val) : val :=
              match to_coll c with
              | Some c => vsres vloaded (load_file_cur (crash_disk (to_policy pol) (to_disk junk)
                                                                   (firstn (Z.to_nat n) (dump_ops (to_path p) c))))
+             | None => vbad end
+         | _ => vbad end
+  | 7 => match a with VL [p; c] => match to_coll c with Some c => VL (map vop (dump_ops_v0 (to_path p) c)) | None => vbad end
+                  | _ => vbad end
+  | 8 => match a with VL [p; c] => match to_coll c with Some c => VL (map vop_short (dump_ops_v0 (to_path p) c)) | None => vbad end
+                  | _ => vbad end
+  | 9 => match a with
+         | VL [p; c; VI n] =>
+             match to_coll c with
+             | Some c => raised_answers (firstn (Z.to_nat n) (dump_ops (to_path p) c))
+             | None => vbad end
+         | _ => vbad end
+  | 10 => match a with
+         | VL [p; c; VI n] =>
+             match to_coll c with
+             | Some c => raised_answers (firstn (Z.to_nat n) (dump_ops_v0 (to_path p) c))
              | None => vbad end
          | _ => vbad end
   | _ => vbad
